@@ -149,6 +149,16 @@ def check_big(ctx, case):
     if got != exp:
         ctx.fail("grid %s position %s: id %d, specification gives %d" % (
             grid, pos, got, exp))
+    # the same coordinates as NumPy scalars of the narrowest type that holds
+    # them (rows of a coordinate table) and as 64-bit NumPy scalars
+    cc = coords(pos, cs, sizes)
+    for name in ("int16", "uint16", "int32", "uint32", "int64", "uint64"):
+        if max(cc) > np.iinfo(name).max:
+            continue
+        alt = int(svs.get_cmc(tuple(np.dtype(name).type(v) for v in cc)))
+        if alt != exp:
+            ctx.fail("grid %s position %s given as %s scalars: id %d, "
+                     "specification gives %d" % (grid, pos, name, alt, exp))
     for d in range(3):
         cc = list(coords(pos, cs, sizes))
         cc[2 * d] = grid[d] * cs
